@@ -6,7 +6,11 @@
 (*                                                                            *)
 (* File: [maxn, cases]; case = [id, kernels (off, pt, sp, label), fields      *)
 (* (name, pt), goffs, progs]; prog = [body, subs (kernel masks), locals,      *)
-(* members, clb, hist]; progs[1] is the untransformed invoke.                 *)
+(* members, clb, hist, step, isbase]; case.steps[n] = the ITERATION-SPACES     *)
+(* lines of the n-th configuration file loaded in the process; a prog with    *)
+(* step = n was generated after n loads and is judged against the table       *)
+(* GOceanRegion!LoadSteps(InitTable, steps, n) (last definition wins);        *)
+(* isbase marks the untransformed invoke of its step.                         *)
 (* Field members (f%internal%xstart ...) are scalar variables of the store,   *)
 (* given their values by GOceanRegion!EnvBounds.                              *)
 EXTENDS FortranSem, Json, IOUtils
@@ -52,7 +56,7 @@ WellFormedOut(M) == \A x \in DOMAIN M.out :
 
 \* ------------------------------------------------------------ quantifiers
 UsesMembers(c) == \E i \in DOMAIN c.kernels :
-                     R!IsBuiltin(c.kernels[i].sp) /\ c.kernels[i].pt # "go_every"
+                     c.kernels[i].sp.name \in R!BuiltinSpaces /\ c.kernels[i].pt # "go_every"
 EnvsOf(c)  == IF UsesMembers(c) THEN R!EnvNames ELSE {"ref"}
 GoffsOf(c) == IF UsesMembers(c) THEN SeqSet(c.goffs) ELSE {c.goffs[1]}
 
@@ -61,24 +65,32 @@ Init == /\ cid \in 1..Len(Cases)
         /\ env \in EnvsOf(Cases[cid])
         /\ go \in GoffsOf(Cases[cid])
         /\ k = 1
-        /\ base = <<>>
+        /\ base = [step |-> 0, log |-> <<>>]
 
 \* -------------------------------------------------------------- clauses
 \* the constant-loop-bounds table has no entry that follows the grid's offset
 \* for a go_offset_any kernel: recorded as a divergence, not judged (see c25.py)
 Undecided(kk, p) == p.clb /\ kk.off = "go_offset_any" /\ R!IsBuiltin(kk.sp) /\ kk.pt # "go_every"
-Judged(c, p)     == {i \in DOMAIN c.kernels : ~Undecided(c.kernels[i], p)}
+\* the kernel with the bounds the table holds after p.step configuration files
+TableOf(c, p) == R!LoadSteps(R!InitTable, c.steps, p.step)
+EK(c, p, i)   == LET kk == c.kernels[i] IN
+                 [kk EXCEPT !.sp = R!Lookup(TableOf(c, p), <<kk.off, kk.pt, kk.sp.name>>)]
+\* a re-defined built-in name only changes the constant-bounds form: the
+\* sequences of that form are not compared with the default loops
+SeqExempt(kk, p) == Undecided(kk, p) \/ (p.clb /\ R!IsRedefined(kk.sp))
+Judged(c, p)     == {i \in DOMAIN c.kernels : ~SeqExempt(EK(c, p, i), p)}
 Labels(c, S)     == {c.kernels[i].label : i \in S}
 Restrict(log, names) == SelectSeq(log, LAMBDA e : e.n \in names)
 
 \* first failing clause of prog p with log L: <<clause, kernel label, witness>>
 KernelClause(c, p, L, i) ==
-  LET kk == c.kernels[i]
+  LET kk == EK(c, p, i)
       V  == R!VisitedBy(L, kk.label)
-      Rg == R!KernelRegion(kk, env, go, g)
+      Rg == R!KernelRegionF(kk, p.clb, env, go, g)
       numeric == R!IsBuiltin(kk.sp) /\ (env = "ref" \/ kk.pt = "go_every")
       diff(a, b) == [missing |-> a \ b, extra |-> b \ a]
-  IN IF ~R!EachPointOnce(L, kk.label) THEN <<"EachPointOnce", kk.label, [calls |-> R!CallCount(L, kk.label)]>>
+  IN IF kk.sp = R!Undefined THEN <<"SpaceConfigured", kk.label, <<>>>>
+     ELSE IF ~R!EachPointOnce(L, kk.label) THEN <<"EachPointOnce", kk.label, [calls |-> R!CallCount(L, kk.label)]>>
      ELSE IF ~Undecided(kk, p) /\ V # Rg THEN <<"VisitedEqualsRegion", kk.label, diff(Rg, V)>>
      ELSE IF numeric /\ ~R!WithinDepth1Halo(V, g)
           THEN <<"WithinDepth1Halo", kk.label, [extra |-> V \ R!Halo1(g)]>>
@@ -102,11 +114,11 @@ Judge(c, p, M) ==
        THEN <<"UnknownKernelCall", "", [names |-> {L[x].n : x \in DOMAIN L} \ all]>>
        ELSE LET r == FirstKernelFail(c, p, L, 1) IN
             IF r[1] # "ok" THEN r
-            ELSE IF k > 1 /\ ~R!SameSequences(Restrict(base, Labels(c, Judged(c, p))),
+            ELSE IF ~p.isbase /\ base.step = p.step /\ ~R!SameSequences(Restrict(base.log, Labels(c, Judged(c, p))),
                                               Restrict(L, Labels(c, Judged(c, p))))
             THEN <<"PerPointSequenceUnchanged", "",
-                   [points |-> {pt \in R!LogPoints(base) \cup R!LogPoints(L) :
-                                  R!PointSeq(Restrict(base, Labels(c, Judged(c, p))), pt)
+                   [points |-> {pt \in R!LogPoints(base.log) \cup R!LogPoints(L) :
+                                  R!PointSeq(Restrict(base.log, Labels(c, Judged(c, p))), pt)
                                   # R!PointSeq(Restrict(L, Labels(c, Judged(c, p))), pt)}]>>
             ELSE <<"ok", "", <<>>>>
 
@@ -115,8 +127,8 @@ Diverges(c, p, M) ==
   /\ M.sig = "" /\ WellFormedOut(M)
   /\ g.nx = File.maxn /\ g.ny = File.maxn
   /\ \E i \in DOMAIN c.kernels :
-       /\ Undecided(c.kernels[i], p)
-       /\ R!VisitedBy(LogOf(M), c.kernels[i].label) # R!KernelRegion(c.kernels[i], env, go, g)
+       /\ Undecided(EK(c, p, i), p)
+       /\ R!VisitedBy(LogOf(M), c.kernels[i].label) # R!KernelRegion(EK(c, p, i), env, go, g)
 
 Step ==
   LET c == Cases[cid] IN
@@ -131,7 +143,10 @@ Step ==
                                env |-> env, go |-> go, d |-> v[3]]]))
         /\ (~skip /\ Diverges(c, p, M)) =>
              PrintT("DIVERGE " \o ToJson([id |-> c.id, hist |-> p.hist, env |-> env, go |-> go]))
-        /\ base' = IF k = 1 THEN (IF M.sig = "" /\ WellFormedOut(M) THEN LogOf(M) ELSE <<>>) ELSE base
+        /\ base' = IF p.isbase
+                   THEN [step |-> p.step,
+                         log |-> IF M.sig = "" /\ WellFormedOut(M) THEN LogOf(M) ELSE <<>>]
+                   ELSE base
         /\ k' = k + 1
         /\ UNCHANGED <<cid, g, env, go>>
 Spec == Init /\ [][Step]_vars
